@@ -38,6 +38,28 @@ def gen(tier, rng, shard, nshards):
             n = int(S.pick(rng, [1, 2, 3, 4, 6, 7, 8, 9, 12]))
             node = S.gen_tree(rng, int(S.pick(rng, [0, 1, 1, 2, 2, 3])), o, (n, n))
             k = int(rng.integers(-n + 1, n)) if rng.random() < 0.7 else 0
+        if r >= 0.12 and rng.random() < 0.09:
+            # directed: composites whose parts get *wider* from left to right (an integer-dtype, single-precision or real first part
+            # before double-precision / complex parts with quarter-integer entries): the result has the promoted dtype and the
+            # later parts' values - whatever the first part's dtype would do to them
+            wide = S.pick(rng, ["f8", "c16", "c16"])
+            a_, b_ = int(rng.integers(1, 4)), int(rng.integers(1, 5))
+            first = S.pick(rng, [{"k": "Dense", "shape": [a_, a_], "dt": "f8", "seed": S.seed(rng), "int_dtype": True},
+                                 {"k": "Dense", "shape": [a_, a_], "dt": "f4", "seed": S.seed(rng)}, {"k": "Diagonal", "n": a_, "dt": "f4", "seed": S.seed(rng)},
+                                 {"k": "Identity", "n": a_, "dt": "f4"}, {"k": "ScalarMul", "n": a_, "dt": "f4", "c": 2.0},
+                                 {"k": "Dense", "shape": [a_, a_], "dt": "f8", "seed": S.seed(rng)}])
+            later = lambda m: {"k": S.pick(rng, ["Dense", "Dense", "Generic"]), "shape": [m, m], "dt": wide, "seed": S.seed(rng), "unit": 0.25}  # noqa: E731
+            form = S.pick(rng, ["BlockDiag", "BlockDiag", "BlockDiag3", "BlockDiagMult", "Kron(BlockDiag,.)", "Sum(BlockDiag,.)", "Sum", "Kronecker", "KronSum"])
+            bd = {"k": "BlockDiag", "via": S.pick(rng, ["ctor", "fn"]), "args": [first, later(b_)]}
+            node = {"BlockDiag": bd, "BlockDiag3": {"k": "BlockDiag", "via": "ctor", "args": [first, later(b_), later(int(rng.integers(1, 3)))]},
+                    "BlockDiagMult": {"k": "BlockDiag", "via": "ctor", "mult": [int(rng.integers(1, 3)), int(rng.integers(1, 3))], "args": [first, later(b_)]},
+                    "Kron(BlockDiag,.)": {"k": "Kronecker", "via": "ctor", "args": [bd, later(int(rng.integers(1, 3)))]},
+                    "Sum(BlockDiag,.)": {"k": "Sum", "via": "ctor", "args": [bd, later(a_ + b_)]},
+                    "Sum": {"k": "Sum", "via": S.pick(rng, ["ctor", "fn"]), "args": [first, later(a_)]},
+                    "Kronecker": {"k": "Kronecker", "via": "ctor", "args": [first, later(b_)]},
+                    "KronSum": {"k": "KronSum", "via": "ctor", "args": [first, later(b_)]}}[form]
+            n = R.shape_of(node)[0]
+            k = int(rng.integers(-n + 1, n)) if rng.random() < 0.5 else 0
         alg = S.pick(rng, ["Exact", "Exact", "Auto", OMIT])
         yield {"spec": node, "k": k, "alg": alg, "prime": S.pick(rng, [None, None, "hutch-same-offset", "hutch-trace", "exact-other-offset"])}
 
